@@ -35,7 +35,7 @@ class ApplyReplicate(Target):
                "FlowIR.override_object merges the second dictionary INTO the first and returns it (C04 bounded)",
                "ParseDataReferenceFull / compile_reference (C09)"]
     assumptions = ["chain: producer P (stage 0) -> consumer C (stage 1) -> aggregator A (stage 2) -> D (stage 3, which also "
-                   "consumes P directly), plus an unrelated component X (stage 1); every order of the five; replica count 1..3"]
+                   "consumes P directly), plus an unrelated component X (stage 0, with its own value of the replica-count variable); every order of the five; replica count 1..3"]
 
     def setup(self, c):
         g = c.ghost
@@ -63,7 +63,9 @@ class ApplyReplicate(Target):
              'references': ['stage0.P:ref', 'data/file.txt:copy']}
         A = {'name': 'A', 'stage': 2, 'workflowAttributes': {'replicate': None, 'aggregate': True}, 'variables': {},
              'references': ['stage1.C/out.txt:copy']}
-        X = {'name': 'X', 'stage': 1, 'workflowAttributes': {'replicate': None, 'aggregate': 'no'},
+        # X shares P's stage and defines ITS OWN value of the variable that gives P's replica count: a component's
+        # variables are visible to that component only (whatever the order of the components in the document)
+        X = {'name': 'X', 'stage': 0, 'workflowAttributes': {'replicate': None, 'aggregate': 'no'},
              'variables': {'points': str(other + 1)}, 'references': []}
         # D consumes the AGGREGATOR's output and, directly, the replicated producer: D is replicated because of P, its
         # reference to the aggregator must not be treated as a reference to a replicated component
